@@ -4,6 +4,7 @@ import (
 	"fmt"
 	"go/ast"
 	"go/token"
+	"go/types"
 	"os"
 	"strings"
 )
@@ -364,7 +365,12 @@ func checkCollectorTypestate(r *Reporter, p *Prog) {
 		if o := objOfIdent(info, e); o != nil && o == collector {
 			return true
 		}
-		if active != nil {
+		if active != nil && collector != nil {
+			// the collector variable itself, possibly seen through parameters of spliced helpers or
+			// closures (identity of the variable, not of the value it currently holds)
+			if cobj, isObj := collector.(types.Object); isObj && active.F.IsVar(e, active.Cur, cobj) {
+				return true
+			}
 			if re, _ := active.F.Resolve(e, active.Cur); re != nil {
 				if o := objOfIdent(info, re); o != nil && o == collector {
 					return true
@@ -417,6 +423,9 @@ func checkCollectorTypestate(r *Reporter, p *Prog) {
 			case *ast.CallExpr:
 				// closure call
 				if id, ok := ast.Unparen(x.Fun).(*ast.Ident); ok && closureVar != nil && info.Uses[id] == closureVar {
+					if active != nil && active.F.regionByCall(x) != nil {
+						return true // the closure body was spliced in at this call: its events are in the graph
+					}
 					var out []string
 					for _, st := range states {
 						out = append(out, summaries[st]...)
